@@ -304,7 +304,7 @@ def streams(tier, rng):
         elif r < 0.6:
             x = rng.randrange(0, 2 ** 31) + rng.randrange(2000) / 2000.0
         elif r < 0.8:
-            x = rng.randrange(0, 200000) * 86400 + rng.choice([0, 1, 86399]) + rng.choice([0.0, 0.5, 0.9995, 0.001])
+            x = rng.randrange(0, 20000) * 86400 + rng.choice([0, 1, 86399]) + rng.choice([0.0, 0.5, 0.9995, 0.001, 0.99951171875])
         else:
             x = -rng.uniform(0, 2 ** 28)
         cases.append((409, [fl(x)]))
@@ -434,10 +434,21 @@ def oracle(case, ires, sres):
     if op == 409:
         x = frac_of(a[0])
         if err:
-            return None
-        exact = (x % 86400) * 1000
-        if abs(ires[1][0] - exact) > 1:
-            return ("C14/ms_of_today", "%s -> %s, exact %s" % (float(x), ires, float(exact)))
+            return ("C14/ms_of_today/raises", "%s -> %s" % (float(x), ires))
+        r = ires[1][0]
+        if not 0 <= r < MSPD:
+            return ("C14/ms_of_today/range", "ms_of_today(%r) = %d is not a millisecond of a day" % (float(x), r))
+        exact = x * 1000                      # exact rational milliseconds since the epoch
+        fl_ = exact.numerator // exact.denominator
+        ok = {fl_ % MSPD}
+        # the product s * 1000 is rounded to a double (|s| < 2^31: half an ulp is at most 2^-12 ms):
+        # next to a millisecond boundary the neighbouring millisecond is as good
+        if exact - fl_ > 1 - Fraction(1, 2 ** 11):
+            ok.add((fl_ + 1) % MSPD)
+        if exact - fl_ < Fraction(1, 2 ** 11):
+            ok.add((fl_ - 1) % MSPD)
+        if r not in ok:
+            return ("C14/ms_of_today/millisecond", "ms_of_today(%r) = %d, the millisecond of the day is %d" % (float(x), r, fl_ % MSPD))
         return None
     if op == 410:
         ud, ms = a[0]
